@@ -14,17 +14,19 @@
 EXTENDS IsoProgram, Determinism
 
 CONSTANTS MaxFeat,      \* features per project
+          PairWith,     \* projects with two or more features contain at least one of these
+          FullPermFiles,\* projects with at most this many files get every creation order
           Reps,         \* fresh processes in the base environment
           DevReps,      \* fresh processes in every other environment
           MaxDev,       \* environment dimensions that deviate from the base at once
-          SwapBudget,   \* inversions allowed in `order` for projects with more than 4 files
+          SwapBudget,   \* inversions allowed in `order` for projects with more files (+ the full reversal)
           DemoIds,      \* ids of the checked-in projects
           DemoReps, MaxShuf
 
 Raw(text, call) == [k |-> "raw", text |-> text, call |-> call, on |-> "x", name |-> "raw"]
 Tagged(d, t)    == [tag |-> t] @@ d
 EntrypointD(on, name, dir) == [k |-> "entrypoint", on |-> on, name |-> name, dirs |-> <<[name |-> dir, args |-> <<>>]>>]
-EntrypointKw(on, name, kw) == [k |-> "entrypoint", on |-> on, name |-> name, hdr |-> [kw |-> kw]]
+EntrypointLead(on, name, lead) == [k |-> "entrypoint", on |-> on, name |-> name, hdr |-> [lead |-> lead]]
 
 Piece(decls, layout) == [decls |-> decls, layout |-> layout]
 
@@ -34,12 +36,14 @@ Base == Piece(<< Component("User", "Card", <<>>, <<Scalar("name"), Scalar("age")
                  Entrypoint("Query", "Home") >>,
               << "src/user/card.ts", "src/home.ts", "src/home.ts" >>)
 
-FeatureNames == << "nobabel", "pet", "loadable", "mutation", "dupEp", "dupEpWs", "xField", "xEp", "xParse", "xParse2",
+FeatureNames == << "nobabel", "sameName", "pet", "loadable", "mutation", "dupEp", "dupEpWs", "xField", "xEp", "xParse", "xParse2",
                    "xDup", "xLazy", "xType", "xDupSame" >>
 
 Feature(f) ==
   CASE f = "nobabel" ->   \* options.no_babel_transform = true: iso.ts switches on the entrypoint literal TEXT
          Piece(<< >>, << >>)
+    [] f = "sameName" ->  \* the name of a client field of another type (User.Card) on Pet, never selected
+         Piece(<< Field("Pet", "Card", <<>>, <<Scalar("nickname")>>) >>, << "src/pet/card.ts" >>)
     [] f = "pet" ->
          Piece(<< Field("Pet", "Tag", <<>>, <<Scalar("nickname"), Scalar("kind")>>),
                   Component("Query", "PetList", <<>>, << Linked("pets", <<Scalar("Tag")>>) >>),
@@ -57,8 +61,8 @@ Feature(f) ==
                << "src/mut.ts", "src/mut.ts" >>)
     [] f = "dupEp" ->       \* the same entrypoint literal once more, in another file
          Piece(<< Tagged(Entrypoint("Query", "Home"), "2") >>, << "src/again.ts" >>)
-    [] f = "dupEpWs" ->     \* ... and once more with two spaces after the keyword (another literal TEXT)
-         Piece(<< Tagged(EntrypointKw("Query", "Home", <<32, 32>>), "3") >>, << "src/spaced.ts" >>)
+    [] f = "dupEpWs" ->     \* ... and once more on a line of its own: newline + two spaces before the keyword (another literal TEXT)
+         Piece(<< Tagged(EntrypointLead("Query", "Home", <<10, 32, 32>>), "3") >>, << "src/spaced.ts" >>)
     [] f = "xField" ->      \* selection of a field that does not exist
          Piece(<< Field("Query", "Bad1", <<>>, << Linked("me", <<Scalar("nope")>>) >>) >>, << "src/bad/one.ts" >>)
     [] f = "xEp" ->         \* entrypoint of an undefined client field
@@ -91,7 +95,12 @@ RECURSIVE Distinct(_)
 Distinct(s) == IF s = <<>> THEN <<>>
                ELSE LET r == Distinct(Tail(s)) IN <<Head(s)>> \o SelectSeq(r, LAMBDA x : x # Head(s))
 
-FeatureSeqs == {fs \in SubSeqs(FeatureNames) : Len(fs) <= MaxFeat}
+\* order-preserving sub-sequences of FeatureNames with at most k elements, the first at index >= lo
+RECURSIVE IncSeqs(_, _)
+IncSeqs(k, lo) == IF k = 0 THEN {<<>>}
+                  ELSE {<<>>} \cup UNION { {<<FeatureNames[i]>> \o r : r \in IncSeqs(k - 1, i + 1)} : i \in lo..Len(FeatureNames) }
+
+FeatureSeqs == {fs \in IncSeqs(MaxFeat, 1) : Len(fs) >= 2 => \E i \in DOMAIN fs : fs[i] \in PairWith}
 
 MkProject(fs) ==
   [id |-> "base" \o Join(fs), class |-> IF \E i \in DOMAIN fs : IsInvalidFeature(fs[i]) THEN "invalid" ELSE "valid",
@@ -106,7 +115,7 @@ vars == <<proj, env>>
 
 Init == proj \in Generated \cup Demos /\ env = BaseEnv(proj.nfiles)
 
-Budget == IF proj.nfiles <= 4 THEN 6 ELSE SwapBudget
+Budget == IF proj.nfiles <= FullPermFiles THEN proj.nfiles * proj.nfiles ELSE SwapBudget
 RepsOf(e) == IF proj.class = "demo" THEN DemoReps ELSE IF Deviations(e) = 0 THEN Reps ELSE DevReps
 Allowed(f) == Deviations(f) <= MaxDev
 
